@@ -92,7 +92,9 @@ class Fault:
         self.vanish_at = None  # SymInt | int | None: all /proc/P accesses >= this index fail
         self.deny_at = None  # this access alone fails with deny_errno
         self.deny_errno = errno.EACCES
-        self.prefix = None  # path prefix the plan applies to
+        self.prefix = None  # the process directory the plan applies to, e.g. "/proc/77"
+        self.pid = None
+        self.fired = []
 
 
 class Kernel:
@@ -130,18 +132,28 @@ class Kernel:
         return tok.decode() if text else tok
 
     # ---- fault gate -------------------------------------------------------------------
+    def _in_scope(self, path):
+        f = self.fault
+        return f.prefix is not None and isinstance(path, str) and (path == f.prefix or path.startswith(f.prefix + "/"))
+
+    def vanished(self):
+        """has the process under the fault plan vanished by now? (decided; forks in symbolic mode)"""
+        f = self.fault
+        return f.vanish_at is not None and bool(f.vanish_at <= self.naccess)
+
     def access(self, kind, path):
         self.naccess_total += 1
         i = self.naccess
         f = self.fault
-        applies = f.prefix is not None and isinstance(path, str) and path.startswith(f.prefix)
-        if applies:
+        if self._in_scope(path):
             self.naccess += 1
             self.log.append((i, kind, path))
             if f.deny_at is not None and bool(f.deny_at == i):
+                f.fired.append(("deny", i, kind, path))
                 raise oserr(f.deny_errno, path)
             if f.vanish_at is not None and bool(f.vanish_at <= i):
-                raise oserr(errno.ESRCH if kind == "read" else errno.ENOENT, path)
+                f.fired.append(("vanish", i, kind, path))
+                raise oserr(errno.ESRCH if kind in ("read", "syscall") else errno.ENOENT, path)
         else:
             self.log.append((None, kind, path))
 
@@ -187,6 +199,9 @@ class Kernel:
     def listdir(self, p):
         key = p.decode() if isinstance(p, bytes) else p
         self.access("listdir", key)
+        if key == "/proc" and self.fault.pid is not None and self.vanished():
+            names = [n for n in self.dirs["/proc"] if n != str(self.fault.pid)]
+            return [n.encode() for n in names] if isinstance(p, bytes) else names
         if key not in self.dirs:
             ch = self._children(key)
             if ch is not None:
@@ -266,7 +281,7 @@ class Kernel:
         if not -(2**31) <= pid <= 2**31 - 1:
             raise OverflowError("signed integer is greater than maximum")
         self.kill_attempts.append((pid, sig))
-        if pid not in self.procs:
+        if pid not in self.procs or (pid == self.fault.pid and self.vanished()):
             raise oserr(errno.ESRCH)
         if pid in getattr(self, "denied", ()):
             raise oserr(errno.EPERM)
